@@ -20,7 +20,7 @@ M = [
  ("C02", "stats-not-decremented", "persistence/subscription/mem/trie_db.go", "\t\t\t\tdb.stats.SubscriptionsCurrent--\n", ""),
  ("C02", "topicmatch-no-dollar-guard", "pkg/packets/packets.go", "if (topicFilter[0] == '$' && topic[0] != '$') || (topic[0] == '$' && topicFilter[0] != '$') {", "if false {"),
  ("C03", "retransmit-dup-false", "server/client.go", "\t\t\tm.Dup = true\n", "\t\t\tm.Dup = false\n"),
- ("C03", "markused-skipped", "server/client.go", "\t\t\tclient.pl.markUsedLocked(id)\n\t\t\tclient.write(gmqtt.MessageToPublish(m.Message, client.version))", "\t\t\tclient.write(gmqtt.MessageToPublish(m.Message, client.version))"),
+ ("C03", "markused-skipped", "server/client.go", "\t\t\tclient.pl.markUsedLocked(id)\n\t\t\tclient.write(client.publishWithRemainingExpiry(m.Message, v.At, time.Now()))", "\t\t\tclient.write(client.publishWithRemainingExpiry(m.Message, v.At, time.Now()))"),
  ("C03", "limit-off-by-one", "server/limiter.go", "for p.used >= p.limit && !p.exit {\n\t\tp.cond.Wait()\n\t}\n\tif p.exit {\n\t\treturn nil\n\t}", "for p.used > p.limit && !p.exit {\n\t\tp.cond.Wait()\n\t}\n\tif p.exit {\n\t\treturn nil\n\t}"),
  ("C03", "puback-keeps-element", "server/client.go", "\terr := client.queueStore.Remove(puback.PacketID)\n\tif err != nil {\n\t\treturn converError(err)\n\t}\n\tclient.pl.release(puback.PacketID)", "\tvar err error\n\tif err != nil {\n\t\treturn converError(err)\n\t}\n\tclient.pl.release(puback.PacketID)"),
  ("C04", "ignore-exist", "server/client.go", "\t\tif exist {\n\t\t\tdup = true\n\t\t}", "\t\tif exist && false {\n\t\t\tdup = true\n\t\t}"),
@@ -30,7 +30,7 @@ M = [
  ("C05", "v3-nonclean-expiry-zero", "server/server.go", "\t\t\t\texpiryInterval = uint32(srv.config.MQTT.SessionExpiry.Seconds())\n\t\t\t} else if connect.Properties != nil {", "\t\t\t\texpiryInterval = 0\n\t\t\t} else if connect.Properties != nil {"),
  ("C05", "disconnect-expiry-ignored", "server/server.go", "\t\t\t\tsess.ExpiryInterval = convertUint32(client.disconnect.Properties.SessionExpiryInterval, sess.ExpiryInterval)", "\t\t\t\t_ = convertUint32(client.disconnect.Properties.SessionExpiryInterval, sess.ExpiryInterval)"),
  ("C05", "takeover-does-not-wait", "server/server.go", "\t\t\toldClient.Close()\n\t\t\t<-oldClient.closed\n\t\t\tcontinue", "\t\t\toldClient.Close()\n\t\t\tsrv.mu.Lock()\n\t\t\tbreak"),
- ("C06", "swap-property-ids", "pkg/packets/properties.go", "\tpropertyWriteString(PropContentType, p.ContentType, newBufw)", "\tpropertyWriteString(PropResponseTopic, p.ContentType, newBufw)"),
+ ("C06", "swap-property-ids", "pkg/packets/properties.go", "\tpropertyWriteString(PropContentType, p.ContentType, newBufw)\n\tpropertyWriteString(PropResponseTopic, p.ResponseTopic, newBufw)\n\tpropertyWriteString(PropCorrelationData, p.CorrelationData, newBufw)\n\n", "\tpropertyWriteString(PropResponseTopic, p.ContentType, newBufw)\n\tpropertyWriteString(PropContentType, p.ResponseTopic, newBufw)\n\tpropertyWriteString(PropCorrelationData, p.CorrelationData, newBufw)\n\n"),
  ("C06", "totalbytes-off-at-128", "pkg/packets/packets.go", None, None),
  ("C06", "filter-hash-in-middle", "pkg/packets/packets.go", "\t\tif p[0] == byte('#') && plen != 1 {", "\t\tif false && p[0] == byte('#') && plen != 1 {"),
  ("C07", "empty-payload-stored", "server/client.go", "\t\t\t\tif len(msg.Payload) == 0 {\n\t\t\t\t\tsrv.retainedDB.Remove(msg.Topic)\n\t\t\t\t} else {", "\t\t\t\tif false {\n\t\t\t\t\tsrv.retainedDB.Remove(msg.Topic)\n\t\t\t\t} else {"),
